@@ -146,6 +146,16 @@ CLAIMED = {
             "Does not decide date parsing of query values, tokenisation, or the comparison primitives themselves.",
             "finite-domain abstract interpretation (path typestate engine with abstract transfer tables), sibling-table agreement",
             "DESIGN.md §4 C15"),
+    "C14": ("Structural necessary conditions of contact-query round-tripping and injection freedom: every evaluation of a "
+            "contact_query template passes flows.ContactQueryEscaping; the writers (ContactQueryEscaping, Condition.String) derive "
+            "from strconv.Quote and the reader from strconv.Unquote; the regexp that licenses unquoted output is anchored and admits "
+            "only characters of the TEXT token (regexp/syntax walk of the constant pattern); the STRING lexer rule, read from the "
+            "grammar and determinised over {quote, backslash, other}, is checked for termination ambiguity and for accepting every "
+            "strconv.Quote image; operator constants are COMPARATOR literals; the printer uses the node's own operator, always "
+            "parenthesises combinations; writer prefixes pair with reader arms. Does not decide structural identity of re-parsed "
+            "queries for all inputs.",
+            "value provenance over go/ssa, regular-language (NFA->DFA) reasoning on the grammar's lexer rule, constant-pattern analysis, table agreement",
+            "DESIGN.md §4 C14"),
 }
 
 NOT_APPLICABLE = {}
